@@ -480,7 +480,8 @@ func giantPGPShapes(c *Ctx) []*giantShape {
 		tag byte
 		pre string
 	}{{"literal", 11, "b\x00\x00\x00\x00\x00"}, {"marker", 10, ""}, {"unknown63", 63, ""}, {"trust", 12, ""}, {"encrypted-key", 1, "\x03\x01\x02\x03\x04\x05\x06\x07\x08\x01"},
-		{"symmetric-key", 3, "\x04\x09\x00\x02"}, {"one-pass", 4, "\x03\x00\x08\x01\x01\x02\x03\x04\x05\x06\x07\x08\x01"}, {"sym-encrypted", 9, ""}, {"sym-encrypted-mdc", 18, "\x01"}, {"compressed-none", 8, "\x00"}} {
+		{"symmetric-key", 3, "\x04\x09\x00\x02"}, {"one-pass", 4, "\x03\x00\x08\x01\x01\x02\x03\x04\x05\x06\x07\x08\x01"}, {"sym-encrypted", 9, ""}, {"sym-encrypted-mdc", 18, "\x01"}, {"compressed-none", 8, "\x00"},
+		{"compressed-zip", 8, "\x01"}, {"compressed-zlib", 8, "\x02\x78\x9c"}, {"compressed-bzip2", 8, "\x03"}} {
 		t := t
 		add("pgp-giant-ignored-"+t.nm, false, false, func(f int) *c08Recipe {
 			return lpSeq(raw(pk[0:3]...), lpPkt(t.tag, lpStr(t.pre), lpHole(fillOctets)), raw(pk[3:]...)).recipe(f)
